@@ -33,43 +33,45 @@ contract('SmtpRelayError.factory', module=MI, props=['C11'],
 R_FACTORY = None
 
 # ---------------------------------------------------------------------------- slimta.smtp.client.Client (assumed here; C10)
-klass('Client', fields={'last_error': 'Reply', 'extensions': 'Extensions', 'io': 'IO'})
+# the relay sees slimta.smtp.client.Client through an ASSUMED interface (ClientView); the real Client methods
+# that are under contract are in contracts/slimta_smtp_client.py (C10)
+klass('ClientView', fields={'last_error': 'Reply', 'extensions': 'Extensions', 'io': 'IO'})
 SCOPE = ['in_timeout_scope()']
 CL_RAISES = {'ConnectionLost': [], 'BadReply': [], 'OSError': [], 'Timeout': []}
 for _m, _p in (('get_banner', {}), ('ehlo', {'ehlo_as': 'Any'}), ('helo', {'ehlo_as': 'Any'}),
                ('starttls', {'context': 'Any'}), ('rset', {}), ('data', {}), ('quit', {}),
                ('get_reply', {}), ('rcptto', {'rcpt': 'Any'})):
-    p = {'self': 'Client'}
+    p = {'self': 'ClientView'}
     p.update(_p)
-    extern('Client.' + _m, params=p, returns='Reply', yields=True, requires=SCOPE, raises=CL_RAISES,
+    extern('ClientView.' + _m, params=p, returns='Reply', yields=True, requires=SCOPE, raises=CL_RAISES,
            ensures=['result != None', 'result.code is not None', 'len(cast(result.code, Str)) == 3'],
-           notes='Client.%s: waits for the peer (G4 scope required); returns the populated reply '
+           notes='Client.%s (assumed view): waits for the peer (G4 scope required); returns the populated reply '
                  '(pipelining / pairing of replies is C10)' % _m)
-extern('Client.mailfrom', params={'self': 'Client', 'sender': 'Any', 'auth': 'Any'}, defaults={'auth': 'None'},
+extern('ClientView.mailfrom', params={'self': 'ClientView', 'sender': 'Any', 'auth': 'Any'}, defaults={'auth': 'None'},
        returns='Reply', yields=True, requires=SCOPE, raises=CL_RAISES,
        ensures=['result != None', 'implies(result.code is not None, len(cast(result.code, Str)) == 3)'])
-extern('Client.auth', params={'self': 'Client', '*creds': 'Args0', 'mechanism': 'Any'}, defaults={'mechanism': 'None'},
+extern('ClientView.auth', params={'self': 'ClientView', '*creds': 'Args0', 'mechanism': 'Any'}, defaults={'mechanism': 'None'},
        returns='Reply', yields=True, requires=SCOPE, raises=CL_RAISES,
        ensures=['result != None', 'result.code is not None', 'len(cast(result.code, Str)) == 3'])
-extern('Client.send_data', params={'self': 'Client', '*data': 'Args0'},
+extern('ClientView.send_data', params={'self': 'ClientView', '*data': 'Args0'},
        returns='Union[Reply, List[Tuple[Str, Reply]]]', yields=True,
        ensures=['implies(is_type(result, Reply), cast(result, Reply) != None and allocated(cast(result, Reply)))'],
        notes='Client.send_data: returns the end-of-data Reply (SMTP) or the list of per-recipient replies (LMTP); '
              'populated once the pipeline has been flushed',
        requires=SCOPE, raises=CL_RAISES)
-extern('Client.send_empty_data', params={'self': 'Client'}, returns='Any', yields=True, requires=SCOPE, raises=CL_RAISES)
-extern('Client._flush_pipeline', params={'self': 'Client'}, yields=True, requires=SCOPE, raises=CL_RAISES,
+extern('ClientView.send_empty_data', params={'self': 'ClientView'}, returns='Any', yields=True, requires=SCOPE, raises=CL_RAISES)
+extern('ClientView._flush_pipeline', params={'self': 'ClientView'}, yields=True, requires=SCOPE, raises=CL_RAISES,
        modifies=['any(Reply).code', 'any(Reply).message'],
        ensures=['forall(Reply, lambda r: implies(allocated(r) and old(r.code) is None, r.code is not None and len(cast(r.code, Str)) == 3))',
                 'forall(Reply, lambda r: implies(old(r.code) is not None, r.code == old(r.code)))'],
        notes='Client._flush_pipeline: blocking read of every outstanding reply (G4 scope required)')
-extern('Client.encrypt', params={'self': 'Client', 'context': 'Any'}, yields=True, requires=SCOPE, raises=CL_RAISES,
+extern('ClientView.encrypt', params={'self': 'ClientView', 'context': 'Any'}, yields=True, requires=SCOPE, raises=CL_RAISES,
        notes='Client.encrypt: TLS handshake (G4 scope required)')
-extern('Client.has_reply_waiting', params={'self': 'Client'}, returns='Bool')
+extern('ClientView.has_reply_waiting', params={'self': 'ClientView'}, returns='Bool')
 extern('IO.close', params={'self': 'IO'})
 
 klass('SmtpRelayClient', ['RelayPoolClient'], module=M,
-      fields={'client': 'Client', 'address': 'Any', 'socket': 'Any', 'socket_creator': 'Any', 'ehlo_as': 'Any',
+      fields={'client': 'ClientView', 'address': 'Any', 'socket': 'Any', 'socket_creator': 'Any', 'ehlo_as': 'Any',
               'context': 'Any', 'auth_mechanism': 'Any', 'tls_immediately': 'Bool', 'tls_required': 'Bool',
               'connect_timeout': 'Opt[Real]', 'command_timeout': 'Opt[Real]', 'data_timeout': 'Opt[Real]',
               'credentials': 'Any', 'binary_encoder': 'Any', 'current_command': 'Any'})
